@@ -35,3 +35,7 @@ def run(project, rep):
     from .. import rules_types as T
     rep.rule("Q-R8", "the identifiers written are the identifiers supplied: the string writers return exactly what passed the length check, nothing clipped (T-R3)")
     rep.run(T.t_r3, project, rep)
+    from .. import rules_client as N
+    rep.rule("Q-R9", "the sign-on says what the client was configured with: every constructor argument is stored (N-R9); a profile request, which is given no credentials, carries only the placeholder (N-R6)")
+    rep.run(N.n_r9_constructor_params, project, rep)
+    rep.run(N.n_r6_placeholder, project, rep)
